@@ -7,6 +7,7 @@ import (
 	"context"
 	"encoding/binary"
 	"io"
+	"strings"
 
 	"github.com/go-netty/go-netty"
 	"github.com/go-netty/go-netty/codec/format"
@@ -95,6 +96,10 @@ func message(carrier int, tag byte, size int) (netty.Message, []byte) {
 		return content, append([]byte{byte(size)}, wire...)
 	case 8: // delimiter codec with a []byte message (sent as [][]byte)
 		return content, append(wire, '\n')
+	case 9: // *bytes.Reader: an io.WriterTo that writes everything at once (one low-level write)
+		return bytes.NewReader(content), wire
+	case 10: // *strings.Reader, likewise
+		return strings.NewReader(string(content)), wire
 	}
 	return nil, nil
 }
